@@ -156,7 +156,7 @@ fn asyncstd_probe(script: &[&str], out: &mut Out) {
     let h = s.handle();
     run_stream(s, h, script, out, |woken| {
         // async-io drives its reactor on its own thread while nobody blocks on a future
-        for _ in 0..60 {
+        for _ in 0..40 {
             std::thread::sleep(Duration::from_millis(5));
             if woken() {
                 break;
